@@ -5,7 +5,9 @@
    Awaiting.awaiting_stack, every is_awaiting flag, handle_reports.handlers_stack -- whose steps
    are regenerated from deferred.py / reports.py (Gen/GenGState.v): every nesting of the three
    context managers, with bodies that may finish, return or raise anything anywhere, restores it;
-   a program's outcome depends on nothing else that survives (the latch is per instance).
+   a program's outcome depends on nothing else that survives (the latch is per instance).  Programs
+   may also *read* the state the way the package does: not_ready() (depth), emit_report (top of the
+   handlers stack), and `if d.is_awaiting` (LinearPolynomial._wait since commit 0fa6448).
    `partial`: per-token caches, hash randomisation, interpreter state and "there is no other
    module-level state" are runtime facts -- tied by the translator's usage scan and by the history /
    fresh-process / PYTHONHASHSEED correspondence in tools/props/c18.py. *)
